@@ -273,7 +273,7 @@ func checkC06(e *Engine, r *Report) {
 		r.Check(guardsNextOnEth(fn, g, false), eoa.Name()+" › sender has no code", e.Pos(fn.Pos()), "next() only when IsEmptyCodeHash(GetCodeHash(ctx, msg.From))", "next() is reachable on the Ethereum lane for a sender with contract code (EIP-3607 check missing or on the wrong address)")
 	})
 
-	r.Rule("R6", "MUST-PASS", "exactly once: the message server has undone the ante handler's nonce increment, so every state transition that returns a result (and lets the fee stand) re-applies it: the call path sets nonce+1 itself; the create path relies on evm.Create, which increments the nonce only after its own balance check — therefore the transition's value-affordability check (clause 6: value > 0 ∧ !CanTransfer ⇒ consensus error) must dominate evm.Create and evm.Call for creations and calls alike", 3, func() {
+	r.Rule("R6", "MUST-PASS", "exactly once: the message server has undone the ante handler's nonce increment, so every state transition that returns a result (and is committed whenever commit was requested) (and lets the fee stand) re-applies it: the call path sets nonce+1 itself; the create path relies on evm.Create, which increments the nonce only after its own balance check — therefore the transition's value-affordability check (clause 6: value > 0 ∧ !CanTransfer ⇒ consensus error) must dominate evm.Create and evm.Call for creations and calls alike", 3, func() {
 		td := e.Fn(pkgEvmKeeper, "StateTransition.TransitionDb")
 		creates := callsTo(td, false, CallSpec{pkgGethVM, "EVM", "Create"})
 		calls := callsTo(td, false, CallSpec{pkgGethVM, "EVM", "Call"})
@@ -320,6 +320,32 @@ func checkC06(e *Engine, r *Report) {
 				g, _ := callOf(b.X)
 				okN = isK && k == 1 && g != nil && isMethodNamed(g, "GetNonce")
 			}
+		}
+		// …and the re-applied nonce is kept: ApplyMessageWithConfig commits the StateDB on EVERY path that returns a result when
+		// commit was requested — a revert or VM error is a result, not a reason to skip the commit (the sender's nonce bump and
+		// the gas accounting live outside the reverted call frame)
+		{
+			amwc := e.Fn(pkgEvmKeeper, "Keeper.ApplyMessageWithConfig")
+			commits := callsIn(amwc, false, func(c ssa.CallInstruction) bool { return isMethodNamed(c, "CommitMultiStore") })
+			commitP := ssa.Value(amwc.Params[4])
+			var bypass []Guard
+			for _, i := range ifs(amwc) {
+				if resolveLocal(i.Cond) == commitP {
+					bypass = append(bypass, Guard{If: i, Survive: 1})
+				}
+				if u, isU := i.Cond.(*ssa.UnOp); isU && u.Op == token.NOT && resolveLocal(u.X) == commitP {
+					bypass = append(bypass, Guard{If: i, Survive: 0})
+				}
+			}
+			okC := len(commits) == 1 && len(successReturns(amwc)) > 0
+			if okC {
+				for _, ret := range successReturns(amwc) {
+					if !passesOr(amwc, ret, commits[0], bypass) {
+						okC = false
+					}
+				}
+			}
+			r.Check(okC, "x/evm/keeper.Keeper.ApplyMessageWithConfig › every result is committed when commit is requested", e.Pos(amwc.Pos()), "CommitMultiStore on every success return unless commit == false", "a result (e.g. a reverted execution) can be returned without committing the StateDB although commit was requested: the sender's nonce increment is lost while the fee stands — the same signed bytes are accepted again")
 		}
 		r.Check(okN, "x/evm/keeper.StateTransition.TransitionDb › call path sets nonce+1 before evm.Call", e.Pos(td.Pos()), "SetNonce(from, GetNonce(from)+1) dominates evm.Call", "a message call does not consume the sender's nonce")
 	})
